@@ -441,7 +441,7 @@ func scenarioMachine(c *hlib.RunCtx) *hlib.Violation {
 				ago = lastEndAgo + days // same end date as the previous file
 			}
 			lastEndAgo = ago - days
-			kind := t.Biased(5, 4, 5)
+			kind := t.Biased(8, 4, 5)
 			mgen.WriteCounterFile(m.t, m.s, m.loc, s.NowT().Add(-time.Duration(ago)*24*time.Hour), days, kind)
 		}
 		if t.Bool(1, 5) { // a file that is still active
